@@ -12,7 +12,7 @@
    (engines Dfir C24, Sim C36), and multi-location flows where the acknowledgement travels
    over a network before the read is issued (then j > i strictly, covered by j >= i). *)
 From Coq Require Import List NArith Bool Arith.
-From HV Require Import HydroB.ModelSlice HydroB.ModelAtomic HydroB.PAtomic.
+From HV Require Import Sim.Model HydroB.ModelSlice HydroB.ModelAtomic HydroB.PAtomic HydroB.SimSlice HydroB.PSimSlice.
 Import ListNotations.
 Open Scope nat_scope.
 
@@ -24,6 +24,18 @@ Theorem C34_ack_implies_read_after_write :
     In w snap.
 Proof. exact ack_implies_read_after_write. Qed.
 Print Assumptions C34_ack_implies_read_after_write.
+
+(* the same over engine Sim's model of the real simulator: the unified atomic tick is a SimTick
+   [write hook; read hook] (any batch hook kinds) decided by the real run_hooks procedure; for
+   every arrival and decision script *)
+Theorem C34_sim_ack_implies_read_after_write :
+  forall sc s obs i j acks resps acks' resps' w r snap,
+    run_sim_atomic s sc = Ok obs -> i <= j ->
+    nth_error obs i = Some (acks, resps) -> In w acks ->
+    nth_error obs j = Some (acks', resps') -> In (r, snap) resps' ->
+    In w snap.
+Proof. exact sim_ack_implies_read_after_write. Qed.
+Print Assumptions C34_sim_ack_implies_read_after_write.
 
 (* acknowledgements are exactly the writes that entered the region (none lost, none twice) *)
 Theorem C34_acks_are_the_writes : forall (W R : Type) (script : list (atick W R)) (s : astate W R),
